@@ -117,6 +117,45 @@ def t_mat_power(ctx, it):
   ctx.oblige("mat_power.post.shape", len(res.shape) == 2 and sym.prove(sym.sand(res.shape[0] == n, res.shape[1] == n)))
 
 
+def t_mat_power_value(ctx, it):
+  """mat_power(M, p) = M^p: functional contract of the square-and-multiply loop, proved for symbolic p >= 0 on 1x1
+  matrices (scalar algebra; the loop structure does not depend on the size).  ipow is the spec power, used through
+  the three binary-exponentiation identities (lemmas/Spec.lean: ipow_zero / ipow_even / ipow_odd), instantiated at
+  the loop state."""
+  m = it.load_module(DS)
+  p = spec.fresh_int("p", lo=0)
+  m0 = spec.fresh_real("m")
+  ipow = z3.Function("ipow", z3.RealSort(), z3.IntSort(), z3.RealSort())
+  ctx.axioms_used.add("ipow(x,0)=1, ipow(x,2k)=ipow(x*x,k), ipow(x,2k+1)=x*ipow(x*x,k)  (Lean: lemmas/Spec.lean)")
+
+  def P(x, k):
+    return SReal(ipow(sym._as_real_z(x), sym._as_int_z(k)))
+
+  def one(v):
+    return T.Tensor((1, 1), T.float32, lambda idx: v)
+
+  def havoc(env, k):
+    i = spec.fresh_int("i_mp", lo=0)
+    pw = spec.fresh_real("power")
+    mt = spec.fresh_real("matk")
+    env["state"] = (T.asarray(i), one(pw), one(mt))
+    # instances of the spec-power identities at this state
+    half = i // 2
+    ctx.assume(sym.implies(i == 0, P(mt, i) == 1.0))
+    ctx.assume(sym.implies(sym.sand(i > 0, i % 2 == 0), P(mt, i) == P(mt * mt, half)))
+    ctx.assume(sym.implies(i % 2 == 1, P(mt, i) == mt * P(mt * mt, half)))
+    ctx.assume(P(mt * mt, 0) == 1.0)
+
+  def inv(env, k):
+    i, power, mat = env["state"]
+    iv = i.item() if isinstance(i, T.Tensor) else i
+    return sym.sand(iv >= 0, power.at((0, 0)) * P(mat.at((0, 0)), iv) == P(m0, p))
+
+  it.loop_contracts[("lax.while_loop", "mat_power.<locals>._iter_body")] = I.LoopContract(inv, havoc, "mat_power.value")
+  res = m.mat_power(one(m0), p)
+  ctx.oblige("mat_power.post.result = M^p (1x1, symbolic p)", res.at((0, 0)) == P(m0, p))
+
+
 def install_newton_invariants(ctx, it, n, ps):
 
   def havoc_inner(env, k):
@@ -270,8 +309,21 @@ def mk_eigh(rel_eps, padded):
     p = spec.fresh_int("p", lo=1)
     A = T.opaque("A", (n, n))
     it.call_contracts["power_iteration"] = pi_contract(ctx)
-    res, metrics = m.matrix_inverse_pth_root(A, p, relative_matrix_epsilon=rel_eps,
+    n_pow = len(ctx.ghost.setdefault("pow_calls", []))
+    eps = spec.fresh_real("ridge_epsilon")
+    ctx.assume(eps > 0)
+    res, metrics = m.matrix_inverse_pth_root(A, p, ridge_epsilon=eps, relative_matrix_epsilon=rel_eps,
                                              padding_start=(T.asarray(ps) if padded else None), eigh=True)
+    # definedness of the real power: x ** (-1/p) needs x > 0.  The eigenvalues returned by eigh are arbitrary reals here
+    # (round-off can make them slightly negative), so the routine itself must clamp the base.
+    k = spec.fresh_int("k_eig")
+    ctx.assume(sym.sand(k >= 0, k < n))
+    res.at((k, k))
+    pows = ctx.ghost["pow_calls"][n_pow:]
+    ctx.require(f"{Q}_eigh.some-power-is-taken", len(pows) >= 1)
+    for base, expo, site in pows:
+      ctx.oblige(f"{Q}_eigh.definedness: the base of every inverse p-th power is positive (ridge_epsilon > 0), whatever eigh returns",
+                 base > 0, detail=site)
     ctx.require(f"{Q}_eigh.post.shape", len(res.shape) == 2 and sym.prove(sym.sand(res.shape[0] == n, res.shape[1] == n)))
     err = metrics.inverse_pth_root_errors.item()
     ctx.oblige(f"{Q}_eigh.P3'.reported-error-is-non-negative (a max of absolute values)", err >= 0)
@@ -286,7 +338,7 @@ def mk_eigh(rel_eps, padded):
 
 
 def tasks(tier):
-  ts = [Task("mat_power", t_mat_power), Task("newton retry body", t_outer_body)]
+  ts = [Task("mat_power", t_mat_power), Task("mat_power value", t_mat_power_value), Task("newton retry body", t_outer_body)]
   for rel in (True, False):
     for pad in (True, False):
       ts.append(Task(f"newton[relative_eps={rel},padded={pad}]", mk_newton(rel, pad)))
